@@ -514,6 +514,9 @@ class Gen:
                 edits.append((bc, bc, body_post))
             if spec.get('after'):
                 edits.append((bc + 1, bc + 1, '\n proof { ' + spec['after'] + ' }\n'))
+            if spec.get('before'):
+                # structural position: immediately in front of the loop keyword (no labelled loops in this crate)
+                edits.append((ks, ks, ' proof { ' + spec['before'] + ' }\n '))
         text = rules.apply_edits(text, edits)
         # hints
         for anchor, where, h in fn.hints:
